@@ -4,7 +4,7 @@ import random
 
 from vlib import hist
 from vlib.ctx import proof_gate
-from vlib.term import C, Nat, Raw, coq, opt
+from vlib.term import C, Nat, Raw, Some, coq, opt
 
 HEADER = "From Coq Require Import ZArith List.\nFrom TV Require Import Common.Harness C02.Model C02.Law C02.Corr."
 CASE_T = "C02.Corr.case"
@@ -52,7 +52,8 @@ def to_term(case, ob):
     kind = C("TEvent") if case["kind"] == "event" else C("TNormal", C({"none": "MNone", "identity": "MIdentity",
                                                                         "equality": "MEquality"}[case["mode"]]))
     hs = [C("mkHandler", Nat(i), C(MECH[m]), i in case["raises"]) for i, m in handlers_of(case)]
-    cfg = C("mkConfig", Raw("pool_eq"), Raw("pool_ne"), Raw("pool_validate"), Nat(case["default"]), kind, hs,
+    cfg = C("mkConfig", Raw("pool_eq"), Raw("pool_ne"),
+            Raw("pool_validate_any" if case.get("variant") == "any" else "pool_validate"), Nat(case["default"]), kind, hs,
             bool(case.get("orig")) and case["kind"] == "normal")
     h = []
     for op, st in zip(case["ops"], ob["steps"]):
@@ -88,16 +89,17 @@ def key_fn(case, ob, step, clause):
 
 def describe(case, ob, step, clause):
     op = case["ops"][step]
-    return ("trait x (%s, mode %s, default %s%s), handlers %r raising %r: clause %s fails at step %d (%s%s): observed %r; "
+    return ("trait x (%s, mode %s, default %s%s%s), handlers %r raising %r: clause %s fails at step %d (%s%s): observed %r; "
             "history so far %r" % (case["kind"], case["mode"], POOL_NAMES[case["default"]],
-                                   ", stores the original value" if case.get("orig") else "", handlers_of(case), case["raises"],
+                                   ", stores the original value" if case.get("orig") else "",
+                                   ", variant " + case["variant"] if case.get("variant") else "", handlers_of(case), case["raises"],
                                    CLAUSE.get(clause, clause), step, op[0], " " + POOL_NAMES[op[1]] if len(op) > 1 else "",
                                    ob["steps"][step], case["ops"][:step + 1]))
 
 
 def nontrivial(case, ob):
     sig = json.dumps([case["kind"], case["mode"], case["default"], case["statics"], case["dyn"], case["raises"], case["ops"],
-                      bool(case.get("orig"))])
+                      bool(case.get("orig")), case.get("variant", "")])
     nt = any(s["calls"] or s["out"] != "Ok" for s in ob["steps"])
     return sig, nt
 
@@ -150,7 +152,13 @@ def gen_case(rnd, ctx, maxlen):
         ctx.count("mechanism:" + m)
     ctx.count("history-length:%02d" % len(ops))
     ctx.count("stores-original-value:%d" % int(orig))
-    return dict(kind=kind, mode=mode, default=default, statics=statics, dyn=dyn, raises=raises, ops=ops, orig=orig)
+    variant = ""
+    if not orig:
+        r = rnd.random()
+        variant = "any" if r < 0.15 else "ddef" if (r < 0.3 and kind == "normal") else ""
+    ctx.count("trait-variant:" + (variant or "validating-trait-type"))
+    return dict(kind=kind, mode=mode, default=default, statics=statics, dyn=dyn, raises=raises, ops=ops, orig=orig,
+                variant=variant)
 
 
 def corpus():
@@ -170,11 +178,28 @@ def corpus():
                        ops=[["Assign", 1], ["Assign", 0], ["Read"]]))
         cs.append(dict(kind=kind, mode=mode, default=3, statics=["changed"], dyn=[], raises=[],
                        ops=[["Assign", 3], ["Assign", 4], ["Assign", 3]]))
+    for kind, mode in (("normal", "none"), ("normal", "identity"), ("normal", "equality"), ("event", "equality")):
+        for variant in ("any", "ddef"):
+            cs.append(dict(kind=kind, mode=mode, default=0, statics=["any", "changed"], dyn=["obs", "otc"], raises=[10],
+                           variant=variant, ops=allops))
     # traits that store the ORIGINAL value (Expression / AdaptsTo style): trigger of F22 (repaired) so that a reversal is detected
     for mode in ("none", "identity", "equality"):
         cs.append(dict(kind="normal", mode=mode, default=6, statics=["changed"], dyn=["obs", "otc"], raises=[], orig=True,
                        ops=[["Assign", 10], ["Assign", 10], ["Assign", 0], ["Assign", 10], ["Assign", 1], ["Assign", 1], ["Read"],
                             ["Assign", 9], ["Assign", 14], ["Assign", 14]]))
+    return cs
+
+
+def exhaustive(length):
+    """Every history of `length` assignments over the whole pool (every ordered tuple of values), for every trait kind /
+    comparison mode / storage variant, with handlers of all mechanisms attached (one of them raising)."""
+    import itertools
+    cs = []
+    for kind, mode, orig in (("normal", "none", False), ("normal", "identity", False), ("normal", "equality", False),
+                             ("normal", "identity", True), ("normal", "equality", True), ("event", "equality", False)):
+        for vs in itertools.product(range(NPOOL), repeat=length):
+            cs.append(dict(kind=kind, mode=mode, default=6, statics=["any", "changed", "fired", "dotc", "dobs"],
+                           dyn=["obs", "otc", "otcany"], raises=[2], orig=orig, ops=[["Assign", v] for v in vs]))
     return cs
 
 
@@ -195,11 +220,15 @@ def run(ctx):
                        "rejected value, converted value) reads (first read of the default included) and `del`; evaluation = one "
                        "operation; non-trivial = some step calls a handler or is refused")
     rnd = random.Random(ctx.seed)
-    n, maxlen = (1500, 12) if ctx.tier == "quick" else (30000, 40)
+    n, maxlen = (1200, 12) if ctx.tier == "quick" else (26000, 40)
     if ctx.replay:
         cases = [json.load(open(ctx.replay))["replay"]["case"]]
     else:
-        cases = corpus() + [gen_case(rnd, ctx, maxlen) for _ in range(n)]
+        grid = exhaustive(2 if ctx.tier == "quick" else 3)       # all ordered pairs (quick) / triples (thorough) of pool values
+        ctx.count("grid:all value %s x 6 trait configurations (exhaustive)" % ("pairs" if ctx.tier == "quick" else "triples"),
+                  len(grid))
+        ctx.cov["exhaustive"] = True
+        cases = corpus() + grid + [gen_case(rnd, ctx, maxlen) for _ in range(n)]
     for c in cases[:1] + cases[-3:]:
         ctx.sample(c)
     # == / != on the value pool and the trait's validation table, measured once on the interpreter (pure CPython and
@@ -211,7 +240,8 @@ def run(ctx):
         "Definition pool_eq : list (list cmp) := %s." % coq([[CMP[x] for x in row] for row in tb["eq"]]),
         "Definition pool_ne : list (list cmp) := %s." % coq([[CMP[x] for x in row] for row in tb["ne"]]),
         "Definition pool_validate : list (option val) := %s." % coq(
-            [opt(None if v is None else Nat(v)) for v in tb["validate"]])])
+            [opt(None if v is None else Nat(v)) for v in tb["validate"]]),
+        "Definition pool_validate_any : list (option val) := %s." % coq([Some(Nat(i)) for i in range(len(tb["validate"]))])])
     ctx.cov["pool_tables"] = tb
     k = hist.run(ctx, DRIVER, cases, to_term, header, CASE_T, key_fn, describe, nontrivial,
                  relation="C02.Corr.corr_codes (Model.step = implementation on every operation)")
